@@ -100,6 +100,9 @@ func dumpOdt(els []odt.VerifElem) string {
 const gridBase = 2_000_000
 
 func docFor(r *hx.Rng, idx int) *ldoc {
+	if idx >= edgeBase {
+		return genEdgeDoc(r, formatOf(idx))
+	}
 	if idx >= gridBase {
 		return genGridDoc(r, formatOf(idx))
 	}
@@ -160,6 +163,7 @@ func RunDoc(c *hx.Ctx, idx int, keep bool) {
 	kase := docCase{Seed: c.Seed, Index: idx, Format: F}
 	path := filepath.Join(c.OutDir, fmt.Sprintf("doc-%d.%s", idx, F))
 	var opLine string
+	var odtTables []*Node
 	if F == "docx" {
 		pkg := writeDocx(r, d)
 		os.WriteFile(path, writers.Zip(pkg.Members), 0o644)
@@ -168,6 +172,7 @@ func RunDoc(c *hx.Ctx, idx int, keep bool) {
 		pkg := writeOdt(r, d)
 		os.WriteFile(path, writers.Zip(pkg.Members), 0o644)
 		opLine = "c16.odt " + pkg.Content.Sexp() + " " + sexpOrDash(pkg.Styles)
+		odtTables = pkg.Tables
 	}
 	if keep {
 		kase.File = path
@@ -179,6 +184,9 @@ func RunDoc(c *hx.Ctx, idx int, keep bool) {
 	var implLine string
 	var openErr, apiErr error
 	var rdText, rdMD string
+	var colCounts []int
+	seq := viewSeq(c.Rng.Fork(uint64(idx) + 1<<40))
+	var reused viewRun
 	pan := hx.Safe(func() {
 		if F == "docx" {
 			rd, err := docx.Open(path)
@@ -202,8 +210,19 @@ func RunDoc(c *hx.Ctx, idx int, keep bool) {
 			els := rd.VerifElements()
 			implLine = dumpOdt(els)
 			out.Parsed, out.HaveParsed = parsedOdt(els), true
+			for _, t := range rd.Tables() {
+				colCounts = append(colCounts, len(t.ColWidths))
+			}
 			rdText, _ = rd.Text()
 			rdMD, _ = rd.Markdown()
+		}
+		// the views of ONE more reader, asked for in the drawn order
+		if v, err := openViews(F, path); err == nil {
+			reused = v.run(seq)
+			v.close()
+		} else {
+			openErr = err
+			return
 		}
 		var e1, e2, e3 error
 		out.Text, _, e1 = tabula.Open(path).Text()
@@ -224,9 +243,18 @@ func RunDoc(c *hx.Ctx, idx int, keep bool) {
 		return
 	}
 	c.Op(opLine, implLine)
+	for k, tn := range odtTables {
+		// number-columns-repeated: the number of column widths the reader holds for the table
+		got := "missing"
+		if k < len(colCounts) {
+			got = fmt.Sprint(colCounts[k])
+		}
+		c.Op("c16.odtcols "+columnsOnly(tn).Sexp(), got)
+	}
 	c.Check("C16/"+F+"-api-agree", out.Text == rdText && out.MD == rdMD, kase, func() string {
 		return fmt.Sprintf("tabula.Open(f).Text()/ToMarkdown() differ from the %s reader's Text()/Markdown()", F)
 	})
+	checkReused(c, d, reused, kase)
 	f := evaluate(d, out)
 	if dbg := os.Getenv("VERIF_C16_DEBUG"); dbg != "" {
 		for k, det := range f {
@@ -268,10 +296,18 @@ func stats(c *hx.Ctx, d *ldoc) {
 	if d.Grid {
 		c.Count(d.Format + "-merge-grid-document")
 	}
+	if d.Edge {
+		c.Count(d.Format + "-edge-attribute-document")
+	}
+	prevLi := -1             // level of the list item before, -1 = the list starts here
 	used := map[string]int{} // family styles used so far in document order (body and cells)
 	seenMulti := false
 	for _, bl := range d.Blocks {
+		if bl.P == nil || bl.P.Kind != "li" {
+			prevLi = -1
+		}
 		if bl.T != nil {
+			statsEdgeTable(c, d.Format, bl.T)
 			for a := 0; a < bl.T.R; a++ {
 				for b := 0; b < bl.T.C; b++ {
 					if cell := bl.T.Cells[[2]int{a, b}]; cell != nil {
@@ -305,6 +341,34 @@ func stats(c *hx.Ctx, d *ldoc) {
 			continue
 		}
 		c.Count(d.Format + "-" + bl.P.Kind)
+		if p := bl.P; p.Kind == "li" {
+			switch {
+			case d.Format == "odt" && p.empty() && p.NoPara:
+				c.Count("odt-list-item-without-paragraph")
+			case d.Format == "odt" && p.empty():
+				c.Count("odt-list-item-with-empty-paragraph")
+			}
+			if d.Format == "odt" && p.Level > prevLi+1 {
+				// the levels in between are list items that only wrap the nested list
+				if prevLi < 0 {
+					c.Count("odt-list-starts-below-level-0")
+				} else {
+					c.Count("odt-list-deepens-several-levels-at-once")
+				}
+				c.Count("odt-list-item-under-textless-item")
+			}
+			prevLi = p.Level
+			switch {
+			case p.LevelUndef:
+				c.Count("docx-ilvl-outside-0..8:" + p.RawLevel)
+			case p.RawLevel == "omit":
+				c.Count("docx-ilvl-omitted")
+			case p.RawLevel != "":
+				c.Count("docx-ilvl-respelled")
+			case d.Format == "docx" && p.Level == 8:
+				c.Count("docx-ilvl-8")
+			}
+		}
 		if bl.P.Kind == "h" {
 			c.Count(d.Format + "-heading-via-" + bl.P.Via)
 		}
@@ -347,6 +411,72 @@ func stats(c *hx.Ctx, d *ldoc) {
 			}
 		}
 	}
+}
+
+func statsEdgeTable(c *hx.Ctx, F string, t *ltable) {
+	if t.Undef {
+		c.Count(F + "-table-with-span-outside-1..1024")
+	}
+	if t.Wide {
+		c.Count(fmt.Sprintf("%s-table-%dx%d", F, min(t.R, 1024), t.C))
+	}
+	if t.RawRepeat != "" {
+		if t.Undef && t.RepeatN == 1 && respelled(t.RawRepeat) < 0 {
+			c.Count("odt-columns-repeated-outside-1..1024:" + t.RawRepeat)
+		} else {
+			c.Count(fmt.Sprintf("odt-columns-repeated-written=%d", min(t.RepeatN, 1024)))
+		}
+	}
+	for _, cell := range t.Cells {
+		for _, raw := range []string{cell.RawCS, cell.RawRS} {
+			switch n := respelled(raw); {
+			case raw == "":
+			case n < 0:
+				c.Count(F + "-span-outside-1..1024:" + raw)
+			case n == 1:
+				c.Count(F + "-span-1-written-out")
+			default:
+				c.Count(F + "-span-respelled")
+			}
+		}
+		if cell.CS == 1024 {
+			c.Count(F + "-cell-1024-columns-wide")
+		}
+		if cell.RS == 1024 {
+			c.Count(F + "-cell-1024-rows-high")
+		}
+	}
+}
+
+// respelled: the number 1..1024 a raw attribute text spells (xsd:integer), -1 otherwise.
+func respelled(raw string) int {
+	s := strings.TrimPrefix(raw, "+")
+	if s == "" || len(s) > 8 {
+		return -1
+	}
+	n := 0
+	for _, ch := range s {
+		if ch < '0' || ch > '9' {
+			return -1
+		}
+		n = n*10 + int(ch-'0')
+	}
+	if n < 1 || n > 1024 {
+		return -1
+	}
+	return n
+}
+
+// columnsOnly: the table element with its table:table-column children only (what the
+// column count is a function of).
+func columnsOnly(t *Node) *Node {
+	n := &Node{Tag: t.Tag, Attrs: t.Attrs}
+	for _, k := range t.Kids {
+		if k.Tag == "table:table-column" {
+			n.Kids = append(n.Kids, k)
+		}
+	}
+	return n
 }
 
 // ---- malformed stream: damaged packages must not crash the readers -----------------------
@@ -472,7 +602,56 @@ func witnessDocs() []*ldoc {
 		mk("odt", lblock{T: t1}, lblock{T: t2}, lblock{P: &lpara{Kind: "p", Runs: tx("W004x")}}),
 		mergeWitness("docx"),
 		mergeWitness("odt"),
+		// ODT: a list that deepens by two levels at once and comes back (the level in
+		// between is a list item that only wraps the nested list), an item with an empty
+		// paragraph that has an item nested below it, an item without any paragraph
+		mk("odt", lblock{P: &lpara{Kind: "p", Runs: tx("W001x")}},
+			lblock{P: &lpara{Kind: "li", NumID: 1, Level: 0, Runs: tx("W002x")}},
+			lblock{P: &lpara{Kind: "li", NumID: 1, Level: 2, Runs: tx("W003x")}},
+			lblock{P: &lpara{Kind: "li", NumID: 1, Level: 1, Runs: tx("W004x")}},
+			lblock{P: &lpara{Kind: "li", NumID: 1, Level: 0}},
+			lblock{P: &lpara{Kind: "li", NumID: 1, Level: 1, Runs: tx("W005x")}},
+			lblock{P: &lpara{Kind: "li", NumID: 1, Level: 0, NoPara: true}},
+			lblock{P: &lpara{Kind: "li", NumID: 1, Level: 0, Runs: tx("W006x")}},
+			lblock{P: &lpara{Kind: "p", Runs: tx("W007x")}}),
+		// ODT: a list that starts two levels deep
+		mk("odt", lblock{P: &lpara{Kind: "li", NumID: 1, Level: 2, Runs: tx("W001x")}},
+			lblock{P: &lpara{Kind: "li", NumID: 1, Level: 0, Runs: tx("W002x")}},
+			lblock{P: &lpara{Kind: "p", Runs: tx("W003x")}}),
+		// spans and levels at and beyond the edges
+		edgeWitness("docx"),
+		edgeWitness("odt"),
 	}
+}
+
+// edgeWitness: a row of cells whose span attributes say 1 (written out), 0, -1, 1025, 2^31-1
+// and 10^20-1; a table with a cell 1024 columns wide; list items whose w:ilvl says 8, 9,
+// 10^20-1 and -1.
+func edgeWitness(F string) *ldoc {
+	t := gridTable(1, 6, anc{0, 0, 0, 0, "E001x"}, anc{0, 1, 0, 0, "E002x"}, anc{0, 2, 0, 0, "E003x"}, anc{0, 3, 0, 0, "E004x"},
+		anc{0, 4, 0, 0, "E005x"}, anc{0, 5, 0, 0, "E006x"})
+	for i, raw := range []string{"1", "0", "-1", "1025", "2147483647", "99999999999999999999"} {
+		t.Cells[[2]int{0, i}].RawCS = raw
+	}
+	t.Undef = true
+	w := gridTable(2, 1024, anc{0, 0, 1, 1024, "E011x"}, anc{1, 0, 1, 1023, "E012x"}, anc{1, 1023, 0, 0, "E013x"})
+	w.Wide = true
+	d := &ldoc{Format: F, Blocks: []lblock{{T: t}, {P: &lpara{Kind: "p", Runs: tx("E010x")}}, {T: w}, {P: &lpara{Kind: "p", Runs: tx("E020x")}}}}
+	if F == "odt" {
+		t.Cells[[2]int{0, 3}].RawRS = "1025"
+		t.Cells[[2]int{0, 4}].RawRS = "0"
+		t.RawRepeat, t.RepeatN = "1025", 1
+		w.RawRepeat, w.RepeatN = "1024", 1024
+		return d
+	}
+	for i, raw := range []string{"", "9", "99999999999999999999", "-1", "omit"} {
+		p := &lpara{Kind: "li", NumID: 1, Level: 8, Runs: tx(fmt.Sprintf("E03%dx", i)), RawLevel: raw, LevelUndef: raw != "" && raw != "omit"}
+		if raw == "omit" {
+			p.Level = 0
+		}
+		d.Blocks = append(d.Blocks, lblock{P: p})
+	}
+	return d
 }
 
 func runWitness(c *hx.Ctx, wi int, keep bool) {
@@ -481,6 +660,9 @@ func runWitness(c *hx.Ctx, wi int, keep bool) {
 	kase := map[string]interface{}{"witness": wi, "format": d.Format}
 	path := filepath.Join(c.OutDir, fmt.Sprintf("witness-%d.%s", wi, d.Format))
 	var opLine string
+	var odtTables []*Node
+	var colCounts []int
+	var reused viewRun
 	if d.Format == "docx" {
 		pkg := writeDocx(r, d)
 		os.WriteFile(path, writers.Zip(pkg.Members), 0o644)
@@ -489,6 +671,7 @@ func runWitness(c *hx.Ctx, wi int, keep bool) {
 		pkg := writeOdt(r, d)
 		os.WriteFile(path, writers.Zip(pkg.Members), 0o644)
 		opLine = "c16.odt " + pkg.Content.Sexp() + " -"
+		odtTables = pkg.Tables
 	}
 	if !keep {
 		defer os.Remove(path)
@@ -508,8 +691,15 @@ func runWitness(c *hx.Ctx, wi int, keep bool) {
 				els := rd.VerifElements()
 				implLine = dumpOdt(els)
 				out.Parsed, out.HaveParsed = parsedOdt(els), true
+				for _, t := range rd.Tables() {
+					colCounts = append(colCounts, len(t.ColWidths))
+				}
 				rd.Close()
 			}
+		}
+		if v, err := openViews(d.Format, path); err == nil {
+			reused = v.run([]byte("TMRDPLD")) // every view of one reader, the model after the renderings
+			v.close()
 		}
 		out.Text, _, _ = tabula.Open(path).Text()
 		out.MD, _, _ = tabula.Open(path).ToMarkdown()
@@ -519,11 +709,19 @@ func runWitness(c *hx.Ctx, wi int, keep bool) {
 		return
 	}
 	c.Op(opLine, implLine)
+	for k, tn := range odtTables {
+		got := "missing"
+		if k < len(colCounts) {
+			got = fmt.Sprint(colCounts[k])
+		}
+		c.Op("c16.odtcols "+columnsOnly(tn).Sexp(), got)
+	}
 	f := evaluate(d, out)
 	for _, k := range oracleKeys[d.Format] {
 		detail, bad := f[k]
 		c.Check("C16/"+d.Format+"-"+k, !bad, kase, func() string { return detail })
 	}
+	checkReused(c, d, reused, kase)
 	c.Count("witness")
 	c.Case(fmt.Sprintf("witness%d", wi), true)
 }
@@ -536,7 +734,11 @@ func Run(c *hx.Ctx) {
 		"each inheriting or overriding the level with an outline level of its own) whose styles are used by headings and table-cell paragraphs in random order and repetition, multi-level lists, tables with multi-paragraph cells, merges and nested tables, " +
 		"optional styles/numbering/header/footer/meta parts, shuffled part order); plus documents of 1..3 tables that COMBINE merges (2..5 rows x 3..6 grid columns, 1..3 vertical merges of 2..4 rows placed at random, " +
 		"then every row partitioned on its own into cells 1..3 columns wide, so the rows a vertical merge runs through hold different numbers of cells to its left: column span in the start row only, in a continuation row only, in both with other widths) " +
-		"between paragraphs, headings and plain tables; every text piece a unique token, rendered by the harness's own DOCX and ODT writers " +
+		"between paragraphs, headings and plain tables; plus documents about numeric attributes at the edges of their range (w:gridSpan, number-columns-spanned, number-rows-spanned, " +
+		"number-columns-repeated written as 1, as another spelling of the number meant (+2, 007), 1024 (a cell 1024 grid columns wide / 1024 rows high, 1024 repeated columns), and outside 1..1024: 0, -1, 1025, 2^31-1, 2^32, 2^63-1, 2^63, 10^20-1, empty, a word; " +
+		"w:ilvl 0..8, respelled, omitted, and 9, 10, 255, 2^31-1, 10^20-1, -1, empty, a word) - for values outside the range only presence, order and place of the text are demanded by the oracles, the Lean model decides the rest; " +
+		"ODT lists that start below level 0 or deepen several levels at once (list items that only wrap the nested list), items with an empty paragraph or none (with and without items nested below); " +
+		"for every document the views of one more reader (Text, Markdown, RAG Markdown, Document, parsed tables, model tables) asked for in a random order with repetitions, every view checked by the same oracles and for stability; every text piece a unique token, rendered by the harness's own DOCX and ODT writers " +
 		"(even index = DOCX, odd = ODT); plus fixed witnesses of the quoted defects and a stream of damaged packages; non-trivial = Document() has at least one element"
 	for wi := range witnessDocs() {
 		runWitness(c, wi, false)
@@ -547,6 +749,9 @@ func Run(c *hx.Ctx) {
 	}
 	for i, n := 0, c.N(240, 4000); i < n; i++ {
 		RunDoc(c, gridBase+i, false)
+	}
+	for i, n := 0, c.N(200, 3000); i < n; i++ {
+		RunDoc(c, edgeBase+i, false)
 	}
 	for i := 0; i < c.N(100, 1500); i++ {
 		malformed(c, i)
